@@ -157,6 +157,7 @@ Sgn(x) == IF x > 0 THEN 1 ELSE IF x < 0 THEN -1 ELSE 0
 \*  5..7 V_noE after ApplyStaticField<noE_V>     8 its return value
 \*  10..18 FillTholeInteraction(src1, tgt) row-major
 \*  19..21 V on tgt after ApplyInducedField<V>   22 CalcPolarEnergy(..).E_indu_indu   23 .E_indu_stat
+\*  (24..44: see ODa/ODb/ODm below)
 OE == 0
 OV(k) == k
 ORet == 4
@@ -167,6 +168,11 @@ OT(i, j) == 10 + 3 * (i - 1) + (j - 1)
 OIV(k) == 18 + k
 OII == 22
 OIS == 23
+\*  DipoleDipoleInteraction over the two one-site segments {src1}, {tgt} (6 x 6 operator A):
+\*  24..32 A(i, 3+j)   33..41 A(3+i, j)   42..44 (A * (induced dipole of src1, 0))[3+k]
+ODa(i, j) == 24 + 3 * (i - 1) + (j - 1)
+ODb(i, j) == 33 + 3 * (i - 1) + (j - 1)
+ODm(k) == 41 + k
 Cfg(srcs, tgt, damp) == <<srcs, tgt, damp>>
 \* a relation: <<clause, coef, cfg, obs, coef, cfg, obs, ...>>
 Rel(c, terms) == <<c>> \o terms
